@@ -279,6 +279,12 @@ func convert(values map[string]any, convPairs map[string]streamConvertPair, isSt
 
 func restore(values map[string]any, convPairs map[string]streamConvertPair, isStream bool) error {
 	if !isStream {
+		// a checkpoint written by a streaming run is resumed without streams
+		for key, v := range values {
+			if _, ok := v.(nilStreamValue); ok {
+				values[key] = nil
+			}
+		}
 		return nil
 	}
 	for key, v := range values {
